@@ -1298,9 +1298,11 @@ impl ObjectFile {
         for (addr, linked_addr) in relocations {
             // TODO: handle case where the address needed is not found in block map
             // should really only occur from invalid manipulation of obj file
-            a_obj.get_mut(addr)
-                .unwrap_or_else(|| unreachable!("object file should have had address x{addr:04X} bound"))
-                .replace(linked_addr);
+            // A relocation entry can only point outside of every block if the object file was tampered with.
+            let Some(word) = a_obj.get_mut(addr) else {
+                return Err(AsmErr::new(AsmErrKind::UndetAddrStmt, 0..0));
+            };
+            word.replace(linked_addr);
         }
 
         Ok(a_obj)
